@@ -35,6 +35,23 @@ Listing(proj) == ListingFrom(proj, 1)       \* every block is followed by one bl
 HeaderLine(lst, p) == CHOOSE i \in 1..Len(lst) : lst[i].kind = "header" /\ lst[i].num = p + 1
 InstrLine(lst, p, k) == HeaderLine(lst, p) + k          \* 0-based: (HeaderLine - 1) + 1 + k
 
+\* ---- line marks of the disassembler ----------------------------------------
+\* marks: set of <<0-based line, mark>>.  "move" and "bounds" first check their line numbers (an error leaves the
+\* marks alone), then clear all marks and set theirs; no other command touches marks.
+MarksOf(lst) == {<<i - 1, lst[i].mark>> : i \in {k \in 1..Len(lst) : lst[k].mark # ""}}
+MarksAfterMove(old, len, from, to, accepted) ==
+    IF from >= len \/ to >= len THEN old
+    ELSE IF accepted THEN {<<to, ">">>} \cup (IF from = to THEN {} ELSE {<<from, "<">>})
+    ELSE {<<to, "!>">>} \cup (IF from = to THEN {} ELSE {<<from, "!<">>})
+\* lst: the listing (marks irrelevant), bounds: [p |-> [lo, up]] the code's move bounds per block position
+MarksAfterBounds(old, lst, bounds, ln) ==
+    IF ln >= Len(lst) THEN old
+    ELSE IF lst[ln + 1].kind # "instr" THEN {<<ln, "!">>}
+    ELSE LET h == CHOOSE i \in 0..ln : lst[i + 1].kind = "header" /\ \A k \in (i + 1)..ln : lst[k + 1].kind = "instr"
+             p == lst[h + 1].num
+             k == ln - h            \* 1-based instruction index
+         IN {<<h + 1 + bounds[p].lo[k] - 1, "vvv">>, <<h + 1 + bounds[p].up[k] + 1, "^^^">>}
+
 \* ---- cursor commands of the disassembler ---------------------------------
 \* each returns [ok, cursor]: ok = FALSE means "answered with an error, cursor unchanged"
 NumOk(a) == a.kind = "num" /\ a.v >= 0
